@@ -3,7 +3,7 @@ from pathlib import Path
 
 import histgen
 from vlib import Check
-from checks.exporter_common import (run_histories, rng_for, exporter_models, generated_histories, exporter_x_models,
+from checks.exporter_common import (run_many_blocks, run_histories, rng_for, exporter_models, generated_histories, exporter_x_models,
                                     generated_x_histories)
 
 
@@ -73,7 +73,8 @@ def run(tier):
     chk.rule = ("model: all histories <= MaxOps incl. rotate(export in {T,F}), add/set parameters; (G) complete model "
                 "histories replayed on the real exporter; (T) rotation-heavy random histories on file-name and descriptor "
                 "outputs, three compression modes, and on the build whose encoder buffer is scaled to 12 bytes (every alignment of "
-                "break / header / carried-over block to the buffer boundary); every closed output parsed by TLC; "
+                "break / header / carried-over block to the buffer boundary); every closed output parsed by TLC; outputs that "
+                "receive 65535..70001 blocks (counts, sizes, reader result); "
                 "distinct = executions")
     chk.assumptions = ["TLC + CommunityModules", "driver logging (harness/exp_driver.cpp)", "python3 zlib/lzma",
                        "rotation argument of the same kind (name / descriptor) as the constructor's (the other case is a "
@@ -94,7 +95,8 @@ def run(tier):
     m3 = run_histories(chk, rotation_heavy(rng, n3, ["none", "none", "none", "gz"]), {"C13"}, label="c13s", sample=False,
                        defs=("CDNS_VERIF_ENC_BUFFER=12",))
     m4 = run_histories(chk, alignment_family(rng, tier), {"C13"}, label="c13a", sample=False, defs=("CDNS_VERIF_ENC_BUFFER=12",))
-    chk.distinct = m1["execs"] + m2["execs"] + m3["execs"] + m4["execs"]
+    m5 = run_many_blocks(chk, {"C13"})
+    chk.distinct = m1["execs"] + m2["execs"] + m3["execs"] + m4["execs"] + m5["execs"]
     return chk.finish()
 
 
